@@ -6,12 +6,12 @@ CONSTANTS
   Slots = {1, 2}
   CfgSet <- CfgConc
   OfferSets <- OffersSmall
-  Lives = {0, 2}
+  Lives = {0}
   TPS = 1
-  MaxClock = 1
+  MaxClock = 0
   MaxCalls = 2
   MaxTok = 2
-  MaxRT = 2
+  MaxRT = 1
   Bodies = {"plain"}
   Statuses <- StatusFew
   TickWhile = {"idle"}
